@@ -452,7 +452,9 @@ class WorldTr:
         return lines, seen
 
     def narrow(self, test, env, positive):
-        """`if <name>:` on `a list or None`: it is a (non-empty) list in the true branch"""
+        """`if <name>:` / `if not <name>:` on `a list or None`: it is a (non-empty) list where <name> is truthy"""
+        if isinstance(test, ast.UnaryOp) and isinstance(test.op, ast.Not):
+            return self.narrow(test.operand, env, not positive)
         if positive and isinstance(test, ast.Name) and test.id in env and env[test.id][1] == "optmd":
             env = dict(env)
             env[test.id] = (env[test.id][0], "md")
